@@ -45,8 +45,13 @@ func (c03) Gen(r *simrt.Rand, idx int, tier string) *Case {
 	}
 	c.L = RandLayout(r, c.J, 5)
 	f := &BalFlags{Val: cs[r.Intn(len(cs))]}
-	no := false
-	f.Close = &no
+	if idx%2 == 0 {
+		no := false
+		f.Close = &no
+	} else if r.P(0.5) {
+		yes := true
+		f.Close = &yes // (closing is also the default)
+	}
 	_, max, _ := c.J.TxnSpan()
 	if r.P(0.5) {
 		d := max + Day(r.Range(0, 20))
@@ -194,8 +199,21 @@ func (c03) Eval(c *Case) (*Violation, bool) {
 			exp[row][com][i].v = exp[row][com][i].v.Add(val)
 			exp[row][com][i].tol += tol
 		}
-		for i, e := range t.Dates {
-			// quantities and booking values per (account, com) up to e, inside the window
+		type rc struct{ row, com string }
+		// rowsAt: what every row shows (display sign) for the bookings from the window
+		// start up to day e, without period closing
+		rowsAt := func(e Day) map[rc]cell {
+			out := map[rc]cell{}
+			put := func(row, com string, val decimal.Decimal, tol int) {
+				if row == "" {
+					return
+				}
+				k := rc{row, com}
+				x := out[k]
+				x.v = x.v.Add(val)
+				x.tol += tol
+				out[k] = x
+			}
 			type ac struct{ a, c string }
 			qty := map[ac]Q{}
 			booked := map[ac]decimal.Decimal{}
@@ -228,13 +246,63 @@ func (c03) Eval(c *Case) (*Violation, bool) {
 						continue
 					}
 					val := qToDec(q).Mul(pr)
-					add(row, k.c, i, val, cnt[k]+ndays+2)
+					put(row, k.c, val, cnt[k]+ndays+2)
 					gain := val.Sub(booked[k])
 					// credited to the mirrored income account: raw -gain, displayed +gain
-					add(mapAccount(mirrorOf(k.a), f, rx), k.c, i, gain, cnt[k]+ndays+2)
+					put(mapAccount(mirrorOf(k.a), f, rx), k.c, gain, cnt[k]+ndays+2)
 				} else {
 					// non-A/L rows are displayed negated
-					add(row, k.c, i, booked[k].Neg(), cnt[k]+1)
+					put(row, k.c, booked[k].Neg(), cnt[k]+1)
+				}
+			}
+			return out
+		}
+		// period closing: income, expense (and mirrored income) rows restart at each period
+		// start; what they had accumulated before sits on Equity:Equity from then on
+		closing := f.closing()
+		starts := make([]Day, len(t.Dates))
+		for i := range t.Dates {
+			if i > 0 {
+				starts[i] = t.Dates[i-1] + 1
+			} else {
+				starts[0] = w.Start
+				if f.Interval != IvOnce {
+					if ps := periodStart(t.Dates[0], f.Interval); ps > starts[0] {
+						starts[0] = ps
+					}
+				}
+			}
+		}
+		equityRow := mapAccount("Equity:Equity", f, rx)
+		for i, e := range t.Dates {
+			cur := rowsAt(e)
+			if closing && starts[i]-1 >= w.Start {
+				for k, x := range rowsAt(starts[i] - 1) {
+					if isAL(k.row) || k.row == equityRow {
+						continue
+					}
+					c0 := cur[k]
+					c0.v = c0.v.Sub(x.v)
+					c0.tol += x.tol
+					cur[k] = c0
+					ek := rc{equityRow, k.com}
+					e0 := cur[ek]
+					e0.v = e0.v.Add(x.v)
+					e0.tol += x.tol
+					cur[ek] = e0
+				}
+			}
+			for k, x := range cur {
+				add(k.row, k.com, i, x.v, x.tol)
+			}
+		}
+		// the text is silent on whether other equity accounts are closed too (knut closes
+		// them): when there are any, equity rows are not compared under closing
+		skipEquity := false
+		if closing {
+			for _, p := range posts {
+				if strings.HasPrefix(p.Account, "Equity") && p.Account != "Equity:Equity" {
+					skipEquity = true
 				}
 			}
 		}
@@ -264,6 +332,9 @@ func (c03) Eval(c *Case) (*Violation, bool) {
 		}
 		sort.Strings(rs)
 		for _, r := range rs {
+			if skipEquity && strings.HasPrefix(r, "Equity") {
+				continue
+			}
 			coms := map[string]bool{}
 			for cm := range exp[r] {
 				coms[cm] = true
